@@ -91,14 +91,82 @@ def run_breaks(prop, breaks, repo="/repo"):
     return out
 
 
+def seeded_patches(prop):
+    """independently written property-breaking changes stored under /verif/seeded/<id>/ that this property's check caught when
+    they were stored: (id, patch path, files touched, expected key)"""
+    import json
+    out = []
+    sd = os.path.join(VERIF, "seeded")
+    for sid in sorted(os.listdir(sd)) if os.path.isdir(sd) else []:
+        mp = os.path.join(sd, sid, "meta.json")
+        if not os.path.exists(mp):
+            continue
+        meta = json.load(open(mp))
+        keys = (meta.get("checks", {}).get("fired", {}) or {}).get(prop) or []
+        keys = [k for k in keys if not k.startswith(("ENGINE", "exit="))]
+        if not keys:
+            continue
+        patch = os.path.join(sd, sid, "patch.diff")
+        files = [l[6:].strip() for l in open(patch) if l.startswith("+++ b/")]
+        out.append((sid, patch, files, keys[0]))
+    return out
+
+
+def run_seeded(prop, items, repo="/repo"):
+    """apply stored seeded patches in batches with pairwise disjoint file sets; each must be reported under its recorded key"""
+    out = {}
+    batches = []
+    for it in items:
+        for bt in batches:
+            if not (set(it[2]) & bt["files"]):
+                bt["items"].append(it)
+                bt["files"] |= set(it[2])
+                break
+        else:
+            batches.append({"items": [it], "files": set(it[2])})
+    root = scratch_root()
+    dst = os.path.join(root, "repo")
+    for bt in batches:
+        try:
+            make_copy(repo, dst)
+            applied = []
+            for sid, patch, files, key in bt["items"]:
+                r = subprocess.run(["git", "apply", patch], cwd=dst, capture_output=True, text=True)
+                if r.returncode != 0:
+                    out["seeded:" + sid] = "stale: patch no longer applies"
+                else:
+                    applied.append((sid, key))
+            if not applied:
+                continue
+            try:
+                fdir, info = factsmgr.ensure_facts(dst, "libs", verbose=False)
+            except SystemExit:
+                for sid, key in applied:
+                    out["seeded:" + sid] = "does-not-compile (in this batch)"
+                continue
+            mod = importlib.import_module("props.%s" % prop.lower())
+            ck = Check(prop, "thorough", getattr(mod, "LEVEL", "other"))
+            ck.extract_info = {"repo": dst}
+            mod.run(ck, Facts(fdir), "thorough")
+            keys = [v["key"] for v in ck.violations]
+            for sid, key in applied:
+                out["seeded:" + sid] = "detected" if key in keys else "MISSED"
+            shutil.rmtree(fdir, ignore_errors=True)
+        finally:
+            shutil.rmtree(dst, ignore_errors=True)
+    return out
+
+
 def run_for(ck, prop):
     import breaks as B
     mine = [b for b in B.BREAKS if b["prop"] == prop]
     t0 = time.time()
-    if not mine:
+    sd = seeded_patches(prop)
+    if not mine and not sd:
         ck.notes.append("selftest: no seeded breaks registered for %s" % prop)
         return
-    res = run_breaks(prop, mine, ck.extract_info.get("repo", "/repo"))
+    res = run_breaks(prop, mine, ck.extract_info.get("repo", "/repo")) if mine else {}
+    res.update(run_seeded(prop, sd, ck.extract_info.get("repo", "/repo")))
     ck.analysed["selftest"] = {"results": res, "wall_s": round(time.time() - t0, 1)}
     for name, r in sorted(res.items()):
         if r == "detected":
